@@ -40,10 +40,26 @@ var av1SeqHeaders = [][]byte{
 		0x73, 0xd0, 0x02, 0x7d, 0x10, 0x10, 0x10, 0x10, 0x40},
 }
 
-func av1TU(ra bool, par, pay, fill int) [][]byte {
+// av1Sized: the same OBU in the low-overhead bitstream form (obu_has_size_field = 1, LEB128 size)
+func av1Sized(obu []byte) []byte {
+	n := len(obu) - 1
+	if n >= 128 {
+		panic("av1Sized: OBU too long for a one-byte size")
+	}
+	return append([]byte{obu[0] | 0x02, byte(n)}, obu[1:]...)
+}
+
+func av1TU(ra bool, par, pay, fill int) [][]byte { return av1TUForm(ra, par, pay, fill, false) }
+
+// av1TUForm: sized = the sequence header travels with its size field (sources that deliver the low-overhead form)
+func av1TUForm(ra bool, par, pay, fill int, sized bool) [][]byte {
 	var tu [][]byte
 	if ra {
-		tu = append(tu, av1SeqHeaders[(par-1)%2])
+		sh := av1SeqHeaders[(par-1)%2]
+		if sized {
+			sh = av1Sized(sh)
+		}
+		tu = append(tu, sh)
 	}
 	tu = append(tu, append([]byte{0x30}, idBytes(pay, fill)...)) // OBU_FRAME, no size field
 	return tu
@@ -93,7 +109,7 @@ func mxWriteOther(r *mxRunner, t *mxTrack, ntp time.Time, pts int64, ra bool, pa
 	case "vp9":
 		return r.m.WriteVP9(t.track, ntp, pts, vp9Frame(ra, par, pay, fill))
 	case "av1":
-		return r.m.WriteAV1(t.track, ntp, pts, av1TU(ra, par, pay, fill))
+		return r.m.WriteAV1(t.track, ntp, pts, av1TUForm(ra, par, pay, fill, t.szf))
 	case "h265":
 		return r.m.WriteH265(t.track, ntp, pts, c9BuildH265(par, ra, pay, fill))
 	}
@@ -167,6 +183,11 @@ func mxParOfInitCodec(c fmp4.Codec) int {
 			return 3
 		}
 		return -1
+	case *fmp4.CodecH265:
+		if bytes.Equal(c.SPS, c9H265SPS2) {
+			return 2
+		}
+		return 1
 	case *fmp4.CodecAV1:
 		for i, sh := range av1SeqHeaders {
 			// the init box stores the OBU with a size field: compare the payload after the header byte
